@@ -41,3 +41,13 @@ VARIANTS += [
       rule='C03-EVIDENCE', key='frag_rlefcs'),
     M('C03', 'refactor-chars-updated-in-place', E(RX, "                    frag_chars[i] = frag_chars[i].union(set(list(g)))", "                    frag_chars[i].update(g)"), kind='refactor'),
 ]
+
+VARIANTS += [
+    M('C03', 'cap-counter-counts-examples', E(RX, "                        n_strings[i] = len(frag_strings[i])", "                        n_strings[i] += 1"), rule='C03-EVIDENCE', key='cap-counter'),
+]
+
+VARIANTS += [
+    M('C03', 'emptiness-tested-on-the-stripped-string-always', E(RX, "                stripped = s.strip() if self.strip else s\n                L = len(stripped)\n                if self.remove_empties and L == 0:", "                stripped = s.strip() if self.strip else s\n                L = len(s.strip())\n                if self.remove_empties and L == 0:"),
+      rule='C03-DISCARD', key='strip=False,remove_empties=True'),
+    M('C03', 'refactor-clean-without-length-local', E(RX, "                L = len(stripped)\n                if self.remove_empties and L == 0:", "                if self.remove_empties and not stripped:"), kind='refactor'),
+]
